@@ -263,6 +263,14 @@ def apply_wide(cfg, wide):
         else:
             _wide_set(cfg, path[1:], v)
         applied.append({"tag": tag, "path": list(path), "value": v})
+    # a workday that is not longer than the average travel time leaves no time for any survey: LDAR-Sim's crew
+    # estimate then divides by zero (OverflowError in Method._estimate_method_crews_required) - not a
+    # configuration any property speaks about; keep the travel time below the workday
+    for m, d in cfg["methods"].items():
+        if d["deployment_type"] == "mobile" and d.get("t_bw_sites") and d.get("max_workday"):
+            if d["max_workday"] * 60 <= 2 * sum(d["t_bw_sites"]) / len(d["t_bw_sites"]):
+                d["t_bw_sites"] = [min(15.0, d["max_workday"] * 15.0)]
+                applied.append({"tag": "sanitised", "path": ["m", m, "t_bw_sites"], "value": d["t_bw_sites"]})
     cfg["wide_applied"] = applied
     return cfg
 
